@@ -35,6 +35,29 @@ def text_oracle(ctx, prop, quick, game_sample=0):
     return summ
 
 
+def ep_geometry_family():
+    """every (capturing-pawn square, en-passant target) pair on the neighbouring ranks, both colours: the
+    shifts and file masks of en-passant generation (no wrap-around across the a/h files, also not from the
+    target's own rank)"""
+    out = []
+    for white in (True, False):
+        for f in range(8):
+            ep = (5 * 8 + f + 1) if white else (2 * 8 + f + 1)           # target on rank 6 / rank 3
+            victim = ep - 8 if white else ep + 8                          # the pawn that has just double-stepped
+            for r in ((3, 4, 5) if white else (2, 3, 4)):
+                for pf in range(8):
+                    sq = r * 8 + pf + 1
+                    if sq in (ep, victim):
+                        continue
+                    b = [0] * 64
+                    b[4] = 6        # Ke1
+                    b[60] = 12      # Ke8
+                    b[victim - 1] = 7 if white else 1
+                    b[sq - 1] = 1 if white else 7
+                    out.append({"b": b, "turn": 1 if white else 0, "rights": 0, "ep": ep, "name": "ep-geometry"})
+    return out
+
+
 def seeds_for(tier, names=None):
     s = load_seeds()
     if names:
@@ -62,6 +85,9 @@ def c01(ctx):
     seeds = seed_records(seeds_for(ctx.tier), both_colours=True)
     summ = engines.oracle_replay(ctx, seeds, 2, ["C01"], label="positions")
     engines.absorb_replay(ctx, summ)
+    geo = engines.oracle_replay(ctx, ep_geometry_family(), 0, ["C01"], label="epgeometry")
+    engines.absorb_replay(ctx, geo)
+    ctx.extra["ep_geometry_positions"] = geo["records"]
     if not quick:
         s3 = engines.oracle_replay(ctx, sparse_seed_records(16), 3, ["C01"], label="sparse3")
         engines.absorb_replay(ctx, s3)
